@@ -101,7 +101,7 @@ Print Assumptions C03_resumed_report.
 Example C03_ex_client_ok :
   run_out (AsClient (mkCfg Rq Rq Rq [mFS; mCTB] [cAES] true)
              (mkS RNone SYes SYes [mCTB; mFS] [mCTB] [cAES] [cAES] KGood
-                  [mkReply 2 true true] PSealed RAuthorized))
+                  [mkReply 2 XOk true] PSealed RAuthorized))
   = Ok (mkR true true mCTB [(mCTB, true)] true (Some (KDerived KGood))).
 Proof. vm_compute. reflexivity. Qed.
 
@@ -122,7 +122,7 @@ Proof. vm_compute. reflexivity. Qed.
 (* a server picking CLAIMTOBE although the client listed only FS is refused *)
 Example C03_ex_unoffered :
   run_out (AsClient (mkCfg Pf Op Op [mFS] [cAES] true)
-             (mkS RNone SYes SYes [mFS] [mFS] [cAES] [cAES] KGood [mkReply 2 true true] PSealed RAuthorized))
+             (mkS RNone SYes SYes [mFS] [mFS] [cAES] [cAES] KGood [mkReply 2 XOk true] PSealed RAuthorized))
   = Err [].
 Proof. vm_compute. reflexivity. Qed.
 
@@ -130,7 +130,7 @@ Proof. vm_compute. reflexivity. Qed.
 Example C03_ex_server_ok :
   run_out (AsServer (mkCfg Rq Rq Op [mCTB; mPW] [cAES] true)
              (mkC true (SLvl Op) (SLvl Op) [mCTB; mPW] [cAES] KGood
-                  [mkM 514 ClaimFail; mkM 2 ClaimOk]))
+                  [mkM 514 XFail; mkM 2 XOk]))
   = Ok (mkR true true mCTB [(mCTB, false); (mCTB, true)] true (Some (KDerived KGood))).
 Proof. vm_compute. reflexivity. Qed.
 (* server role: client omits its ECDH key against Encryption REQUIRED *)
